@@ -38,24 +38,25 @@ func (g *jsGen) fnScope() *jsScope {
 }
 
 type jsGen struct {
-	r       *core.Rand
-	strict  bool
-	module  bool
-	sc      *jsScope
-	depth   int
-	fnDepth int
-	inLoop  int
-	inFunc  int
-	labels  []string
-	site    int
-	budget  int
-	counter map[string]int
-	inGen   bool
-	inAsync bool
-	inClassCtor bool
-	inClass int
-	sloppy  bool // program-level mode
-	inObjMethod int // guard js-objmethod-nested-object: no identifier-valued object literals inside methods of object literals
+	r            *core.Rand
+	strict       bool
+	module       bool
+	sc           *jsScope
+	depth        int
+	fnDepth      int
+	inLoop       int
+	inFunc       int
+	simpleParams bool // the innermost generated parameter list has no defaults, patterns or rest
+	labels       []string
+	site         int
+	budget       int
+	counter      map[string]int
+	inGen        bool
+	inAsync      bool
+	inClassCtor  bool
+	inClass      int
+	sloppy       bool // program-level mode
+	inObjMethod  int  // guard js-objmethod-nested-object: no identifier-valued object literals inside methods of object literals
 }
 
 func (g *jsGen) push(fn bool) { g.sc = &jsScope{parent: g.sc, fn: fn} }
@@ -515,7 +516,7 @@ func (g *jsGen) expr(d int) string {
 	case 28:
 		return "(" + g.arrowFunc(d) + ")(" + g.args() + ")"
 	case 29:
-		return r.Pick([]string{"(new Object)", "new Object()", "new Array(3)", "new Error(\"m\")", "new (class{constructor(){h(" + g.nextSite() + ")}})()", "new Date(0)", "new Map([[1,2]])", "(5n*3n)", "BigInt(7)"})
+		return r.Pick([]string{"(new Object)", "new Object()", "new Array(3)", "new Error(\"m\")", "new (class{constructor(){h(" + g.nextSite() + ")}})()", "new Date(0)", "new Map([[1,2]])", "String(5n*3n)", "typeof BigInt(7)"}) // BigInt values never reach arithmetic: guard js-bigint-mix-dropped
 	case 30:
 		return g.str() + "+" + g.str() + r.Pick([]string{"", "+(" + g.expr(d+1) + ")"})
 	case 31:
@@ -535,7 +536,10 @@ func (g *jsGen) expr(d int) string {
 		return g.someVar(false)
 	case 37:
 		if g.inFunc > 0 && !g.strict && g.inClass == 0 {
-			return r.Pick([]string{"arguments.length", "arguments[0]"})
+			if g.simpleParams {
+				return r.Pick([]string{"arguments.length", "arguments[0]"})
+			}
+			return "arguments.length" // indexed access only with simple parameter lists (the minifier may drop an unused non-simple parameter, which turns the arguments object into a mapped one)
 		}
 		return "this===undefined"
 	case 38:
@@ -630,11 +634,12 @@ func (g *jsGen) params(declare bool) string {
 			parts = append(parts, p)
 		}
 	}
-	for i, p := range parts {
-		if strings.HasPrefix(p, "{") || strings.HasPrefix(p, "[") {
-			continue
+	// guard js-arguments-mapping-after-param-removal: remember whether the parameter list is simple
+	g.simpleParams = true
+	for _, p := range parts {
+		if strings.ContainsAny(p, "={[.") {
+			g.simpleParams = false
 		}
-		_ = i
 	}
 	return strings.Join(parts, ",")
 }
